@@ -27,6 +27,7 @@ pub(super) struct ClassData {
     inner_type_map: NamespaceData,
     property_map: HashMap<String, PropertyData>,
     public_methods: MethodDataTable,
+    is_namespace: bool,
 }
 
 impl<'a> Class<'a> {
@@ -85,6 +86,11 @@ impl<'a> Class<'a> {
             }
             first_err.map(Err)
         }
+    }
+
+    /// Whether this is a C++ namespace (holding enums), which can't be instantiated.
+    pub fn is_namespace(&self) -> bool {
+        self.data.as_ref().is_namespace
     }
 
     pub fn is_derived_from(&self, base: &Class) -> bool {
@@ -210,6 +216,7 @@ impl ClassData {
             inner_type_map: NamespaceData::default(),
             property_map: HashMap::new(),
             public_methods: MethodDataTable::default(),
+            is_namespace: false,
         }
     }
 
@@ -256,6 +263,7 @@ impl ClassData {
             inner_type_map,
             property_map,
             public_methods,
+            is_namespace: meta.namespace,
         }
     }
 
